@@ -143,6 +143,12 @@ def verify(qual, timeout_ms=20000, verbose=False, part=None):
             print('  %-90s %-8s %6.2fs %s' % (name, verdict, secs, why))
     # vacuity: the preconditions (and axioms) are consistent
     ok = canary(eng.requires_hyps, bg)
+    # ... and stay consistent after every assumption made on the way (allocation of a new object)
+    out['canary_points'] = []
+    for label, hyps in getattr(eng, 'canary_points', []):
+        okp = canary(hyps, bg, 4000)
+        out['canary_points'].append({'at': label, 'consistent': okp})
+        ok = ok and okp
     out['canary_pre'] = ok
     out['assumptions'] = sorted(eng.assumptions_used)
     out['unproved_termination'] = list(eng.unproved_termination)
